@@ -15,7 +15,7 @@ def jobs(tier):
     for f, kind, bound in (('setup_global', 'proof', None), ('add_item', 'proof', None),
                            ('link_import', 'bounded', 'one module with one import item in modules_to_link'),
                            ('load_export', 'bounded', 'one module with one function item')):
-        j = Job(f, H, 'h_' + f, defines={'NDEBUG': None}, ops=OPS, unwind=4, no_standard_checks=True, object_bits=10, timeout=600,
+        j = Job(f, H, 'h_' + f, defines={'NDEBUG': None}, ops=OPS, unwind=4, no_standard_checks=True, object_bits=10, timeout=600, solver='cadical',
                 scope=['vp_on_error', 'vp_ctx_setup', 'vp_env_state', 'item_tab_find', 'HTAB_MIR_item_t_do', 'vp_resolver', 'is_def', 'set_name'],
                 kind=kind, bound=bound)
         j.count_funcs = {'add_item', 'setup_global', 'MIR_link', 'MIR_load_module', 'MIR_load_external', 'new_export_import_forward', 'create_item'}
